@@ -73,14 +73,12 @@ def _run_variant(args):
         return (name, expect, "skipped", "variant does not compile")
     try:
         common.REPO = root
-        from repo import Repo
+        import decide
         mod = importlib.import_module(f"props.{pid.lower()}")
         res = common.Result(pid)
         try:
-            mod.run(Repo(root), res, "quick")
-            status = "ok"
-        except common.AnalysisError as e:
-            status = f"analysis-error: {e}"
+            res, err, _ = decide.decide(pid, mod, root, "quick")
+            status = "ok" if err is None else f"analysis-error: {err}"
         except Exception as e:  # noqa
             status = f"crash: {type(e).__name__}: {e}"
         known = {k["key"] for k in common.load_known().get("known", []) if k["property"] == pid}
